@@ -715,7 +715,7 @@ def position_constructor_cases(F, name):
     nf = hir.Exec(h, F).run()
     params = [p["pat"].get("name") for p in fn["hir"]["params"]]
     out = []
-    grid = [-9, -1, 0, 3, 7, 8, 9]
+    grid = [-128, -9, -2, -1, 0, 1, 2, 3, 4, 5, 6, 7, 8, 9, 15, 16, 127]
 
     def ctor(t):
         # Self(r, c) -> ("pos", r, c)
@@ -727,8 +727,8 @@ def position_constructor_cases(F, name):
             return tuple(ctor(x) if isinstance(x, tuple) and not isinstance(x, hir.PK) else x for x in t)
         return t
     if name in ("add", "add_unsafe"):
-        for r, c in ((0, 0), (3, 4), (7, 7), (0, 7)):
-            for dr, dc in ((-1, 0), (1, 0), (0, -1), (0, 1), (2, 1), (-2, -1), (7, 7), (-7, -7), (1, -1)):
+        for r, c in ((0, 0), (3, 4), (7, 7), (0, 7), (7, 0), (1, 1), (6, 6), (1, 6), (6, 1), (0, 3), (7, 4), (4, 0), (3, 7)):
+            for dr, dc in ((-1, 0), (1, 0), (0, -1), (0, 1), (2, 1), (-2, -1), (1, 2), (-1, -2), (7, 7), (-7, -7), (1, -1), (-1, 1), (7, 0), (0, 7), (-7, 0), (0, -7)):
                 a = {("field", ("var", params[0]), "0"): ("lit", r), ("field", ("var", params[0]), "1"): ("lit", c),
                      ("field", ("var", params[1]), "0"): ("lit", dr), ("field", ("var", params[1]), "1"): ("lit", dc)}
                 out.append(((r, c, dr, dc), ctor(hir.fold(nf, a))))
